@@ -573,7 +573,7 @@ pub fn run(ctx: &mut LaneCtx) {
     ctx.run_sub(
         SubSpec {
             name: "live-maps",
-            cases: (160, 10_000),
+            cases: (480, 10_000),
             rule: "live targets with 1..6 files mapped in 1..4 parts of differing permissions with optional PROT_NONE gaps, some unlinked; the mapping list the dumper derives (PtraceDumper init) is judged against the kernel's /proc/pid/maps text with the same invariants (order, exact cover, hull, merge justification, gate name); non-trivial = at least one merge; distinct = hash of case",
             strategy: crate::props::c08::case_strategy().boxed(),
             max_shrink_iters: 100,
